@@ -96,13 +96,15 @@ def replay_reg(ctx, path, module='RegTrace', cfg='RegTrace.cfg', strict=None):
 
 
 def reg_check(ctx, stacks, strict, n_tlc, n_rand, steps=40, profiles=('all',), tlc_cfg='OciRegistryGen.cfg', honest=False,
-              label='', per_file=400, cover=None, cover_sample=None, uploads=0, wire=0):
+              label='', per_file=400, cover=None, cover_sample=None, uploads=0, wire=0, extra_gen=()):
     """Common body: TLC-generated histories + seeded-random ones on the given stacks, then
     trace validation against OciRegistry via RegTrace."""
     vh = vlib.build_harness(ctx)
     td = ctx.sub('traces')
     traces = []
     scen = gen_scenarios(ctx, n_tlc, cfg=tlc_cfg)
+    for cfg, n, depth in extra_gen:
+        scen += gen_scenarios(ctx, n, depth=depth, cfg=cfg)
     if cover:
         # one history per (state, operation) pair of the model-checked universe
         scen += cover_scenarios(ctx, cover, sample=cover_sample)
